@@ -325,9 +325,21 @@ pub fn run(c: &mut Ctx) {
         let nm = rng.range(1, 3);
         for _ in 0..nm {
             let pos = if t.is_empty() { 0 } else { rng.below(t.len() + 1) };
-            match rng.below(8) {
+            match rng.below(10) {
                 0 => t.insert(pos, '='),
                 1 => t.insert(pos, *rng.pick(&['!', ' ', '-', '_', '\u{0}', '\u{7f}', '\u{100}', 'W', 'g', '\t'])),
+                8 | 9 => {
+                    // a non-ASCII character whose low octet (or low 7 bits) is an alphabet symbol
+                    let base = *rng.pick(&['A', 'v', 'Q', '0', '9', 'F', 'a', '+', '/', '=']) as u32;
+                    let hi = *rng.pick(&[0x80u32, 0x100, 0x200, 0x1000, 0x10000, 0xFF00]);
+                    let ch = char::from_u32(base + hi).unwrap_or('\u{176}');
+                    if rng.bool() && !t.is_empty() {
+                        let p = pos.min(t.len() - 1);
+                        t[p] = ch;
+                    } else {
+                        t.insert(pos, ch);
+                    }
+                }
                 2 => {
                     if !t.is_empty() {
                         t.remove(pos.min(t.len() - 1));
